@@ -64,6 +64,12 @@ func (p *prefixedReadSeekCloser) Read(b []byte) (int, error) {
 		n = k
 	}
 
+	if prefBytes == len(b) && n > 0 {
+		// no room for the rest: do not ask it, an exhausted rest would end the stream
+		// while the prefix still has data
+		return n, nil
+	}
+
 	k, err := p.rest.Read(b[prefBytes:])
 	n += k
 	return n, err
